@@ -544,6 +544,18 @@ def check(case):
                     hj = must(hash, he[j], what='hash(HE)')
                     if hi != hj:
                         raise Failure('hash', 'a == b but hash differs')
+        # operands of another kind: equals() is False for them, so == is the plain False and != the plain True
+        h0 = he[0]
+        other_kind = lib(lambda: sf.FrameHE.from_records([(1, 2)]) if kind == 'series' else sf.SeriesHE((1, 2)))
+        foreign = [None, 0, 'a', (1, 2), other_kind, (other_kind.to_frame() if kind == 'series' else other_kind.to_series()),
+                   np.array([1, 2]), h0.index, objs[0].values]
+        for x in foreign:
+            r = must(lambda: h0 == x, what='HE == %s' % type(x).__name__)
+            nr = must(lambda: h0 != x, what='HE != %s' % type(x).__name__)
+            if type(r) is not bool or type(nr) is not bool:
+                raise Failure('kind', 'HE ==/!= %s returned non-bool %s / %s' % (type(x).__name__, type(r).__name__, type(nr).__name__))
+            if r is not False or nr is not True:
+                raise Failure('he-foreign', 'HE == %s is %s and != is %s (equals() is False for an operand of another kind)' % (type(x).__name__, r, nr))
         hs = [lib(hash, h) for h in he]
         if any(isinstance(h, Raised) for h in hs):
             bad = next(h for h in hs if isinstance(h, Raised))
